@@ -128,7 +128,7 @@ def check (P : Params) (h : Nat) (s0 : State) : Tx → Option String
   | .reg _ _ _ _ => none
   | .dep _ _ => none
   | .pen _ _ => none
-  | .stake _ _ => none
+  | .stake _ v => if v ≤ 0 then some "value" else none   -- ExchangeVotes.CheckTransactionOutput: output value must be > 0
   | .cancel o =>
     match get o s0.accts with
     | none => some "noprod"
